@@ -321,17 +321,18 @@ PROPS["C04"] = dict(
     rule=PAR_RULE, trivial_tags=PAR_TRIVIAL,
 )
 PROPS["C03"] = dict(
-    modules=["DdoModel.Props.C03", "DdoModel.Props.C03b", "DdoModel.Props.C03c"],
+    modules=["DdoModel.Props.C03", "DdoModel.Props.C03b", "DdoModel.Props.C03c", "DdoModel.Proofs.ParSysExecSound"],
     theorems=["Ddo.C03.par_cover", "Ddo.C03.run_cover", "Ddo.C03.par_correct", "Ddo.ParCover.step_inv", "Ddo.ParCover.final",
               "Ddo.C03b.sys_inv_init", "Ddo.C03b.sys_inv_init_primal", "Ddo.C03b.sys_inv_step", "Ddo.C03b.sys_inv", "Ddo.C03b.sys_inv_seq", "Ddo.C03b.sys_complete_optimal",
               "Ddo.C03b.sys_complete_value", "Ddo.C03b.sys_final", "Ddo.C03b.sys_terminates", "Ddo.C03b.sys_progOk", "Ddo.C03b.sys_no_infinite_run",
               "Ddo.C03c.parallel_solver_correct", "Ddo.C03c.parallel_solver_total", "Ddo.C03c.parallel_solver_primal", "Ddo.C03c.par_pcinv", "Ddo.C03c.par_contract_R", "Ddo.C03c.par_contract_X",
               "Ddo.C03c.par_complete_optimal", "Ddo.C03c.par_infeasible", "Ddo.C03c.par_terminates", "Ddo.C03c.par_no_panic", "Ddo.C03c.par_progress", "Ddo.C03c.Trap2.correct",
-              "Ddo.C03c.Trap2.zero_threads"],
-    stated_not_proved=["a machine-checked link between the trace validator of the driver (Engines/Par.lean, which replays the real solver's sections through the ParSolver.lean functions) and the step relation ParSys.StepG (which composes the same functions): by construction, not a theorem",
+              "Ddo.C03c.Trap2.zero_threads",
+              "Ddo.ParSys.exec_sound", "Ddo.ParSys.execRun_sound", "Ddo.ParSys.execRun_sound_mem", "Ddo.ParSys.execRun_inv", "Ddo.ParSys.execRun_final", "Ddo.ParSys.popMax?_sound"],
+    stated_not_proved=["for runs WITH the threshold cache the trace validator is linked to the proved step relation only by construction (same ParSolver.lean functions); cache-less runs are linked by a checked refinement (below)",
                        "runs with cache / dominance (C09 / C10)", "the closed theorem reads relaxed compilations through the must-resolution of the exact-best-path tie (as C01)"],
     level_text="For the data-level transition system of the parallel solver (fringe, incumbent, and the nodes held by workers together with the stale incumbent each worker read and what its compilations answered; any number of workers; every interleaving of the critical sections and lock-free compilations) the coverage invariant is proved to be preserved by every step of every worker in every order under exactly the diagram contracts, and to imply that the incumbent is the optimum once nothing is open or held. The executable model of the parallel solver, which has the same sections, is validated against the real solver trace by trace under the controlled scheduler (thread counts 1..4, random and PCT schedules, cache accesses as scheduling points), and phi compares every final value with the exact optimum.",
-    level_note="Closed theorem (parallel_solver_correct, C03c): for every well-formed model (same bundle as C01: Potential, RubOk, MergeOk, AttMerge, bounded costs, NvBound, widths >= 1) and every number of threads U >= 1, from the initial state every run of the concrete parallel system in which the compilations are THE DIAGRAM MODEL'S answers (EmptyCache, no dominance; cutoffs may strike any compilation) - every interleaving - satisfies the invariants, terminates (no infinite run), never takes a panic step, is never stuck while a worker is still there (no deadlock, no lost wake-up), and when get_workload answers Complete the incumbent is the optimum with a genuinely feasible stored solution and completion = (true, some opt), (true, none) iff the problem is infeasible; after a cutoff best_lb <= opt <= best_ub and not exact; parallel_solver_total: uninterrupted runs exist and every one of them ends with all workers gone and the optimum; parallel_solver_primal: from a feasible primal, max(v, opt). The per-worker side conditions (stale incumbent in range, node in hand reached exactly, ...) are an invariant PCInv; the contracts are derived from C06 - C08 for the stale incumbent each worker read. Non-vacuity: two threads on the Trap model, evaluated by the kernel through a deterministic scheduler (a state where one thread has published incumbent 4 while the other is about to compile with the stale incumbent 1). U >= 1 is necessary: with nb_threads = 0, which custom() / with_nb_threads() accept, maximize() reports (is_exact = true, no value) for any problem (Trap2.zero_threads) - outside the property's quantifier (>= 1), recorded as an observation. Second stage (C03b, ParSys.lean + 2000 lines of proofs): the same results are theorems about the CONCRETE model - the shared record ParCrit with the ParSolver.lean functions themselves (popLoop, take, readLb, updateBest, enqueue, notifyFinished, abortSearch, complete) and one local state per worker, 15 step constructors composed as parallel.rs composes its sections, both fringes, cutoffs and worker panics included: the invariant SysInv (coverage; per worker: the stale incumbent it read is below the current one and its compilations meet the contracts for the incumbent it read; upper_bounds[i] is the bound of the node worker i holds; ongoing = number of holders) holds initially (with or without a primal) and along every run of every interleaving (sys_inv); when get_workload answers Complete the incumbent is the optimum with a feasible solution, none iff infeasible (sys_complete_optimal, sys_complete_value); what maximize() returns once all workers are done (sys_final); no infinite run at all, wait steps included, when cut-sets make progress (sys_terminates, sys_no_infinite_run: lexicographic measure on per-depth counts of open nodes). First stage: abstract data-level system; proved without cache and dominance; the link trace validator -> step relation is by construction of the definitions, not a checked refinement; synchronisation (no deadlock) is C04. Atomicity of the critical sections is assumed (mutex semantics).",
+    level_note="Checked link between the code's runs and the proved system: for every scheduled run without threshold cache the driver advances, next to its trace validator, a state of the proved transition system ParSys by the executable step function Sys.exec (one action per StepG constructor, fed with what the tape says the fringe / diagram answered; the maximal-pop side condition is CHECKED on the model's fringe), rejects the trace if a section is not such a step or if the shared record or a worker's state differs from the validator's after any section, and exec_sound / execRun_sound prove that whatever Sys.exec accepts is a Step / Run of ParSys - so every accepted real run IS a run of the system the theorems are about (execRun_inv, execRun_final: its invariants and its final-state theorem apply to it). Closed theorem (parallel_solver_correct, C03c): for every well-formed model (same bundle as C01: Potential, RubOk, MergeOk, AttMerge, bounded costs, NvBound, widths >= 1) and every number of threads U >= 1, from the initial state every run of the concrete parallel system in which the compilations are THE DIAGRAM MODEL'S answers (EmptyCache, no dominance; cutoffs may strike any compilation) - every interleaving - satisfies the invariants, terminates (no infinite run), never takes a panic step, is never stuck while a worker is still there (no deadlock, no lost wake-up), and when get_workload answers Complete the incumbent is the optimum with a genuinely feasible stored solution and completion = (true, some opt), (true, none) iff the problem is infeasible; after a cutoff best_lb <= opt <= best_ub and not exact; parallel_solver_total: uninterrupted runs exist and every one of them ends with all workers gone and the optimum; parallel_solver_primal: from a feasible primal, max(v, opt). The per-worker side conditions (stale incumbent in range, node in hand reached exactly, ...) are an invariant PCInv; the contracts are derived from C06 - C08 for the stale incumbent each worker read. Non-vacuity: two threads on the Trap model, evaluated by the kernel through a deterministic scheduler (a state where one thread has published incumbent 4 while the other is about to compile with the stale incumbent 1). U >= 1 is necessary: with nb_threads = 0, which custom() / with_nb_threads() accept, maximize() reports (is_exact = true, no value) for any problem (Trap2.zero_threads) - outside the property's quantifier (>= 1), recorded as an observation. Second stage (C03b, ParSys.lean + 2000 lines of proofs): the same results are theorems about the CONCRETE model - the shared record ParCrit with the ParSolver.lean functions themselves (popLoop, take, readLb, updateBest, enqueue, notifyFinished, abortSearch, complete) and one local state per worker, 15 step constructors composed as parallel.rs composes its sections, both fringes, cutoffs and worker panics included: the invariant SysInv (coverage; per worker: the stale incumbent it read is below the current one and its compilations meet the contracts for the incumbent it read; upper_bounds[i] is the bound of the node worker i holds; ongoing = number of holders) holds initially (with or without a primal) and along every run of every interleaving (sys_inv); when get_workload answers Complete the incumbent is the optimum with a feasible solution, none iff infeasible (sys_complete_optimal, sys_complete_value); what maximize() returns once all workers are done (sys_final); no infinite run at all, wait steps included, when cut-sets make progress (sys_terminates, sys_no_infinite_run: lexicographic measure on per-depth counts of open nodes). First stage: abstract data-level system; proved without cache and dominance; the link trace validator -> step relation is by construction of the definitions, not a checked refinement; synchronisation (no deadlock) is C04. Atomicity of the critical sections is assumed (mutex semantics).",
     engines=[PAR_ENGINES[0], PAR_ENGINES[3]], trusted_base=PAR_TB,
     assumptions=["diagram contracts (C06-C08)", "atomic critical sections"],
     rule=PAR_RULE, trivial_tags=PAR_TRIVIAL,
@@ -384,6 +385,8 @@ PROPS["C09"]["observables"] = ["status", "ups", "cutset"]
 PROPS["C10"]["observables"] = ["status", "ndom", "ups", "cutset"]
 PROPS["C12"]["observables"] = ["log", "polls"]
 PROPS["C13"]["observables"] = ["expanded"]
+PROPS["C10"]["search"] = [dict(name="seq", label="seq_focus_dom", args=["--focus-dominance"]), dict(name="par", label="par_focus_dom", args=["--focus-dominance"])]
+PROPS["C09"]["search"] = [dict(name="seq", label="seq_focus_cache2", args=["--focus-cache", "--focus-dominance"])]
 # the optimality theorems of the solvers (C01 sequential, C03 parallel) assume the diagram contracts; their tie to the code
 # therefore also covers what the solvers consume from a compilation: outcome and best values, cut-set (with bounds) and the
 # thresholds written to the cache
